@@ -12,8 +12,10 @@ SPEC = {
              "then the real CommandExecutor/CommandRegistry with every handler of internal/command and internal/app/server) into a fresh "
              "real in-memory server stack (memory storage, built-in cloud control, connection-code/port-mapping services, HTTP domain "
              "repository, NotificationService, ServerAuthHandler) built from the world in the case string, and a second time with "
-             "SenderId/ReceiverId/Token blanked; exhaustive matrix: every command type 0..130 x 5 connection identities (listen party, "
-             "target party, stranger, registered-unauthenticated, never-handshaken) x claimed fields x request/response packet type x "
+             "SenderId/ReceiverId/Token blanked; exhaustive matrix: every command type 0..130 x 7 connection identities, each reached through the REAL handshake path (handleHandshake -> "
+             "ServerAuthHandler with sealed secrets: listen party, target party, stranger authenticated by a correct HMAC; refused "
+             "handshake; never-handshaken; phase 1 only = challenge pending for client 1001; phase 2 answered wrongly), plus the "
+             "configuration without executor (handleDefaultCommand) and the entry point ProcessCommand (predicate only) x claimed fields x request/response packet type x "
              "named object (own / other party's / stranger's / empty / unknown id) x target client; claimed SenderId/ReceiverId/Token "
              "range over numbers, garbage AND things that exist in the world (`@c<i>` the connection id of another — live, "
              "authenticated — connection, `@m/@s/@k/@d` mapping ids, secret keys, codes, domain ids); plus random worlds (casts, owners, "
@@ -55,7 +57,8 @@ SPEC = {
         "cross-node: the SOCKS5 tunnel-open broadcast (BroadcastTunnelOpen -> every node's handleTunnelOpenBroadcast) is driven through a "
         "BridgeManager double over an in-memory hub (the broker itself is not the repo's); handleDNSQueryCrossNode (connection-state "
         "store + TCP cross-node pool) is still nil in the harness: DNS target on another node = refused",
-        "handleDefaultCommand (executor nil) is not driven: the server always installs the executor (setupConnectionCodeCommands)",
+        "entry point ProcessCommand and read faults on commands other than MappingGet/Delete/TrafficReport/SOCKS5 are judged by the "
+        "predicate only (x-cases), not compared with the model; see checks/c11_coverage.md for the clause/dimension/mechanism map",
         "SendNotifyToClient / NotifyClientAck handlers are registered by the harness although no production code registers them yet",
     ],
 }
